@@ -354,7 +354,7 @@ def static_input_ops(prog) -> set[str]:
     """op classes whose port_kind has an InPort arm of Const / Function kind: they own a static input port"""
     out = set()
     for c in prog.module("hugr.ops").classes.values():
-        m = c.methods.get("port_kind")
+        m = c.find_method("port_kind")[1]
         if m is None:
             continue
         for n in ast.walk(m):
